@@ -1,6 +1,6 @@
 #!/bin/bash
 # run every claimed check (quick by default) sequentially; print one line per property
-cd /verif
+cd "$(dirname "$0")/.."
 tier=${1:-quick}
 for p in $(python3 -c "import json;print(' '.join(c['property_id'] for c in json.load(open('MANIFEST.json'))['checks']))"); do
   s=$(date +%s)
